@@ -75,7 +75,14 @@ def sample_contract(reg,c,repo,seed,count):
       if out.skipped: skipped+=1; continue
       per_case[out.case]+=1
       if not out.ok and len(fails)<5: fails.append(dict(args=desc,case=out.case,failed=out.failed))
-  return dict(evaluations=ev,per_case=per_case,failures=fails,skipped=skipped)
+  if count and any(v==0 for v in per_case.values()) and not getattr(c,'_retry',False):
+    # a case the sampler did not reach: one retry with a tenfold budget before the vacuity guard speaks
+    c._retry=True
+    try: r2=sample_contract(reg,c,repo,seed+7919,count*10)
+    finally: c._retry=False
+    for k,v in r2['per_case'].items(): per_case[k]=per_case.get(k,0)+v
+    ev+=r2['evaluations']; fails+=r2['failures']; skipped+=r2['skipped']
+  return dict(evaluations=ev,per_case=per_case,failures=fails[:5],skipped=skipped)
 
 def run_standin(reg,c,repo):
   """bounded stand-in: the executable contract on the real function over the contract's stated finite input domain."""
